@@ -375,6 +375,51 @@ pub fn poll(fds: &mut [PollFd<'_>], mut timeout: Option<Duration>) -> Result<usi
     }
 }
 
+// Verification hooks: expose the private pure helpers to the harness in /verif.
+// Compiled only with `--cfg subprocess_verif`; no effect on normal builds.
+#[cfg(subprocess_verif)]
+pub mod verif_hooks {
+    use std::ffi::{OsStr, OsString};
+
+    pub fn split_path(path: &OsStr) -> Vec<OsString> {
+        super::split_path(path).map(|p| p.to_owned()).collect()
+    }
+
+    pub fn decode_exit_status(status: i32) -> crate::os_common::ExitStatus {
+        super::decode_exit_status(status)
+    }
+
+    /// Capacity reserved for the executable buffer, and the longest string
+    /// (including the trailing NUL) that `exec` will assemble in it.
+    pub fn prealloc_exe(cmd: &OsStr, search_path: Option<&OsStr>) -> (usize, usize) {
+        let argvec = super::CVec::new(&[cmd]).unwrap();
+        let prep = super::PrepExec::new(
+            cmd.to_owned(),
+            argvec,
+            None,
+            search_path.map(|p| p.to_owned()),
+        );
+        let cap = prep.prealloc_exe.capacity();
+        let mut exe = Vec::new();
+        let mut longest = 0;
+        if let Some(ref sp) = prep.search_path {
+            for dir in super::split_path(sp.as_os_str()) {
+                use std::os::unix::ffi::OsStrExt;
+                let n = super::PrepExec::assemble_exe(
+                    &mut exe,
+                    &[dir.as_bytes(), b"/", prep.cmd.as_bytes()],
+                )
+                .len();
+                longest = longest.max(n);
+            }
+        } else {
+            use std::os::unix::ffi::OsStrExt;
+            longest = super::PrepExec::assemble_exe(&mut exe, &[prep.cmd.as_bytes()]).len();
+        }
+        (cap, longest)
+    }
+}
+
 #[cfg(test)]
 mod tests {
     use super::split_path;
